@@ -416,6 +416,20 @@ func (x *TX) of(v ssa.Value, at ssa.Instruction) *Term {
 			}
 		}
 		l, r := x.Of(v.X, v), x.Of(v.Y, v)
+		if v.Op == token.EQL || v.Op == token.NEQ {
+			// a comparison of two interface values also compares their dynamic types: it is not the
+			// comparison of the wrapped values (terms see through MakeInterface)
+			if _, isIface := v.X.Type().Underlying().(*types.Interface); isIface && !isNilConst(v.X) && !isNilConst(v.Y) {
+				dyn := func(val ssa.Value, t *Term) *Term {
+					ts := "?"
+					if mi, ok := val.(*ssa.MakeInterface); ok {
+						ts = typeStr(mi.X.Type())
+					}
+					return mk("call", "dyn:"+ts, t)
+				}
+				l, r = dyn(v.X, l), dyn(v.Y, r)
+			}
+		}
 		if b, ok := v.Type().Underlying().(*types.Basic); ok && b.Info()&types.IsNumeric != 0 {
 			switch v.Op {
 			case token.ADD, token.MUL, token.AND, token.OR, token.XOR:
@@ -521,7 +535,8 @@ func (x *TX) convTerm(v *ssa.Convert, at ssa.Instruction) *Term {
 	ts := typeStr(v.Type())
 	// []byte(string(X)) and string([]byte(X)) are identities on content
 	if inner.Op == "conv" && inner.A[0].T != nil && types.Identical(inner.A[0].T.Underlying(), v.Type().Underlying()) {
-		if ts == "[]byte" || ts == "string" {
+		// (only through the other of the two: string([]rune(s)) rewrites invalid UTF-8)
+		if mid := inner.S; (ts == "[]byte" && mid == "string") || (ts == "string" && mid == "[]byte") {
 			return inner.A[0]
 		}
 	}
